@@ -71,6 +71,8 @@ func TestInvalidatorReplay(t *testing.T) {
 
 	type ctxK struct{}
 
+	type cancelK struct{}
+
 	unit := time.Second
 	if cfg.UnitMs > 0 {
 		unit = time.Duration(cfg.UnitMs) * time.Millisecond
@@ -96,6 +98,11 @@ func TestInvalidatorReplay(t *testing.T) {
 					}
 
 					log = append(log, i)
+
+					// a callback may cancel the caller's context: the remaining callbacks still run
+					if c, _ := ctx.Value(cancelK{}).(context.CancelFunc); c != nil && i == 1 {
+						c()
+					}
 				})
 			}
 
@@ -106,7 +113,20 @@ func TestInvalidatorReplay(t *testing.T) {
 					continue
 				}
 
-				got := invrReply(inv.Invalidate(context.WithValue(context.Background(), ctxK{}, bi)))
+				// every third call with a context that is already cancelled, every third with one that its first callback
+				// cancels: an accepted call runs every callback all the same
+				cctx, cancel := context.WithCancel(context.WithValue(context.Background(), ctxK{}, bi))
+
+				switch si % 3 {
+				case 1:
+					cancel()
+				case 2:
+					cctx = context.WithValue(cctx, cancelK{}, cancel)
+				}
+
+				got := invrReply(inv.Invalidate(cctx))
+
+				cancel()
 
 				okLog := len(log) == st.NLog
 				for j, x := range log {
